@@ -39,7 +39,8 @@ Definition api (ask : string -> list val -> val) : list api_entry := [
   ("bip32_parse_current", fun a => match a with [VB s] => rmap vpath (Bip32Path.parse_current s) | _ => bad_call end);
   ("bip32_to_str", fun a => match a with [VL l; VN ab] =>
       match vals_N l with
-      | Some idx => Ok (VB (Bip32Path.to_str (Bip32Path.mk_path idx (negb (N.eqb ab 0)))))
+      | Some idx => rmap (fun p => VB (Bip32Path.to_str p))
+                         (Bip32Path.make_path (map Z.of_N idx) (negb (N.eqb ab 0)))
       | None => bad_call end | _ => bad_call end);
   ("bip32_key_index", fun a => match a with [VZ i] => rn (Bip32Path.key_index i) | _ => bad_call end);
   ("bip32_index_ops", fun a => match a with [VZ i] =>
